@@ -18,6 +18,7 @@ inductive St where
   | QVal (S : Bool) (co : Option Meta) (k : Str) (nkp : List Str)   -- value of query entry k
   | NsMember                                                        -- member of a namespace document
   | ZQ | ZU | ZA | ZP                                               -- command zones (see `zoneState`)
+  | ZOp | ZOps                                                      -- an operation document one level down / bulkWrite's list of them
   | Keep
   deriving Inhabited
 
@@ -26,6 +27,16 @@ inductive Act where
   | leaf (out : J)
   | obj (f : Str → J → Str × St)
   | arr (s : St)
+
+/-- the zone a key of an operation document opens (redactOperation's dispatch) -/
+def opZone (hasInsert : Bool) (k : Str) : St :=
+  if qKeysObj.contains k then .ZQ
+  else if uKeysObjOrArr.contains k then .ZU
+  else if aKeysArr.contains k then .ZA
+  else if k = sDocuments then (if hasInsert then .ZA else .Keep)
+  else if k = sDocument then (if hasInsert then .ZQ else .Keep)
+  else if k = sPipeline then .ZP
+  else .Keep
 
 namespace Ctx
 
@@ -97,6 +108,10 @@ def node (c : Ctx) : St → J → Act
   | .ZA, _ => .keep
   | .ZP, .arr _ => .arr .FacetStage
   | .ZP, _ => .keep
+  | .ZOp, .obj kvs => .obj (fun k _ => (k, opZone (lookup sInsert kvs).isSome k))
+  | .ZOp, _ => .keep
+  | .ZOps, .arr _ => .arr .ZOp
+  | .ZOps, _ => .keep
 
 mutual
 def run (c : Ctx) (s : St) : J → J
@@ -122,19 +137,18 @@ def runList (c : Ctx) (s : St) : List J → List J
   | x :: xs => run c s x :: runList c s xs
 end
 
-/-- the zone a command key opens (redactCommand's dispatch) -/
-def zoneState (hasInsert : Bool) (k : Str) : St :=
-  if qKeysObj.contains k then .ZQ
-  else if uKeysObjOrArr.contains k then .ZU
-  else if aKeysArr.contains k then .ZA
-  else if k = sDocuments then (if hasInsert then .ZA else .Keep)
-  else if k = sPipeline then .ZP
-  else .Keep
+/-- the zone a command key opens (redactCommand's dispatch): the operation's own keys, the wrapped
+    operation of `explain`, the operations of `bulkWrite` -/
+def zoneState (hasInsert hasBulk : Bool) (k : Str) : St :=
+  if k = sExplain then .ZOp
+  else if k = sOps && hasBulk then .ZOps
+  else opZone hasInsert k
 
 /-- `redactCommand` through the automaton -/
 def redactCommandA (c : Ctx) (cmd : List (Str × J)) : List (Str × J) :=
   let hasInsert := (lookup sInsert cmd).isSome
-  cmd.map fun p => (p.1, c.run (zoneState hasInsert p.1) p.2)
+  let hasBulk := (lookup sBulkWrite cmd).isSome
+  cmd.map fun p => (p.1, c.run (zoneState hasInsert hasBulk p.1) p.2)
 
 def cmdDocA (c : Ctx) (v : J) : J :=
   match v with
